@@ -26,7 +26,7 @@ RULE = ('each run: a seeded netlist over the whole catalogue (combinational + se
 REAL = ['py4hw.base.Wire.put/prepare/settle', 'all library primitives', 'py4hw.logic.simulation.Waveform/Sequence/RandomValue']
 STUB = ['stimulus', 'monitoring listener']
 ASSUMPTIONS = ['observation = Wire.value of every wire reachable from the HWSystem (wires created by any Logic, wires attached to any port)']
-PROBES = ['double_prepare_block', 'adv_constant', 'adv_reset_value', 'adv_sequence', 'adv_poke', 'listener_observation', 'waveform_samples', 'random_value']
+PROBES = ['bidir_clocked', 'double_prepare_block', 'adv_constant', 'adv_reset_value', 'adv_sequence', 'adv_poke', 'listener_observation', 'waveform_samples', 'random_value']
 
 
 def adversarial(rng, w):
@@ -55,6 +55,10 @@ def gen(rs, tier, index):
     # a random-value source (numpy.random, re-seeded per run) feeding nothing but its own wire
     d['random_value'] = [{'w': rng.choice([1, 4, 8, 33]), 'mean': rng.choice([0, -5, 100, 1e6]), 'std': rng.choice([1, 50, 1e5])}
                          for _ in range(rng.randint(0, 2))]
+    d['bidir'] = []
+    for _ in range(rng.randint(0, 2)):
+        w = rng.choice([1, 8, 16, 33])
+        d['bidir'].append({'w': w, 'values': [adversarial(rng, w) if rng.random() < 0.7 else rng.getrandbits(w) for _ in range(rng.randint(1, 4))]})
     sr = rs.get('stimulus')
     steps = []
     for _ in range(sr.randint(2, 8)):
@@ -94,6 +98,11 @@ def run(scn, log, st):
         w = b.hw.wire('rnd%d' % j, rv['w'])
         py4hw.RandomValue(b.hw, 'rnd%d' % j, w, rv['mean'], rv['std'])
         st.probe('random_value')
+    for j, bd in enumerate(d.get('bidir', [])):
+        # a bidirectional wire driven by a clocked block (prepare / settle path of BidirWire) with adversarial values
+        bw = b.hw.bidir_wire('pad%d' % j, bd['w'])
+        py4hw.Sequence(b.hw, 'padseq%d' % j, list(bd['values']), bw)
+        st.probe('bidir_clocked')
     watch = list(b.wires.values())[:12]
     wvf = py4hw.Waveform(b.hw, 'wvf', watch) if watch else None
     seams.check_wire_ranges(b.hw, 'after construction', 0)
